@@ -22,9 +22,12 @@ def config_numbers(trajs, dtr_cnfg=1, always_offset=False):
 
 
 # ----------------------------------------------------------------------------- ms1 / rwms
+RW_SHIFT = 0.0      # added to every stored exponent (a check sets it for the duration of one case)
+
+
 def rw_value(rep, k, i, j, s):
     """the stored number x (the reweighting factor is mean over sources of exp(-x), product over j)"""
-    return 0.02 * (rep + 1) + 0.003 * k + 0.05 * i + 0.011 * j + 0.0017 * s + 0.0001 * ((7 * k + 3 * s + rep) % 5)
+    return RW_SHIFT + 0.02 * (rep + 1) + 0.003 * k + 0.05 * i + 0.011 * j + 0.0017 * s + 0.0001 * ((7 * k + 3 * s + rep) % 5)
 
 
 def write_rwms(path, version, rep, trajs, nfct, nsrc):
